@@ -14,7 +14,113 @@ def ext_literals(F, f):
     return out
 
 
+def header_accept_rule(ctx, F):
+    """C08.accept: the header reader refuses no header the header writer emits.  The k-th value read is the k-th value written;
+    the writer's values are a constant, the running length (at least the constructors' value: it only grows, C09), the version the
+    constructors install and a discriminant of ShapeType.  A path of Header::read_from that returns an error after testing values it
+    read must be unsatisfiable over those domains."""
+    import itertools
+    ctx.rule("C08.accept", "Header::read_from returns an error of its own only for headers Header::write_to never emits: on every "
+                           "error path the tests on the values read are contradicted by the values written at the same position "
+                           "(the file code constant, a length of at least the constructors' 50 words, the version, a valid type code)",
+             floor=2)
+    fr, fw, fd = F.identity("header::Header::read_from"), F.identity("header::Header::write_to"), None
+    for imp in F.trait_impls("std::default::Default"):
+        if imp["self_ty"] in ("header::Header", "Header"):
+            for m in imp["methods"]:
+                fd = F.fns.get(m["key"])
+    if not fr or not fw or not fd:
+        ctx.missing("C08.accept", "Header::read_from / write_to / default")
+        return
+    site = ctx.site_of(F, fr["def"])
+    dflt = [p.ret for p in util.run_fn(F, fd, summarise_pure=False)[0] if p.status == 'return']
+    codes = sorted((util.shapetype_discr(F) or {}).values())
+    wps = [p for p in util.run_fn(F, fw, summarise_pure=False)[0] if is_agg(p.ret, None, 'Ok')]
+    if len(dflt) != 1 or len(wps) != 1 or not codes:
+        ctx.missing("C08.accept", "one default header, one success path of write_to, the type codes")
+        return
+    doms = []
+    for e in wps[0].io():
+        v = e[4] if len(e) > 4 else None
+        while isinstance(v, tuple) and v and v[0] == 'cast':
+            v = v[1]
+        if v is None:
+            doms.append(None)
+        elif v[0] == 'int':
+            doms.append((v[1],))
+        elif v[0] == 'discr':
+            doms.append(tuple(codes))
+        elif v[0] == 'load' and v[1][0] == ('T', ('param', 1)) and len(v[1][1]) == 1 and v[1][1][0][0] == 'f':
+            d0 = agg_field(dflt[0], v[1][1][0][1])
+            if d0 is None or d0[0] != 'int':
+                doms.append(None)
+            elif v[1][1][0][1] == 'file_length':
+                doms.append((d0[1], d0[1] + 1, d0[1] + 14, 2 ** 31 - 1))      # only ever increased from the constructors' value
+            else:
+                doms.append((d0[1],))
+        else:
+            doms.append(None)
+    n = 0
+    seen = set()
+    for p in util.run_fn(F, fr, summarise_pure=False)[0]:
+        if p.status != 'return' or not is_agg(p.ret, None, 'Err'):
+            continue
+        reads = {}
+        for k, e in enumerate(p.io()):
+            reads[e[-1]] = k
+        atoms = []
+        free = False
+        for t, v in p.cons:
+            if t in reads:
+                atoms.append(('in', reads[t], v))
+            elif t[0] == 'bin' and t[1] in absint.CMP_OPS and (t[2] in reads or t[3] in reads):
+                ops = []
+                for x in (t[2], t[3]):
+                    if x in reads:
+                        ops.append(('r', reads[x]))
+                    elif x[0] == 'int':
+                        ops.append(('k', x[1]))
+                    else:
+                        free = True
+                atoms.append((t[1], ops, (v != 0) if isinstance(v, int) else True))
+        if not atoms:
+            continue                                  # a failed read, passed on
+        used = sorted(set([a[1] for a in atoms if a[0] == 'in'] + [o[1] for a in atoms if a[0] != 'in' for o in a[1] if o[0] == 'r']))
+        key = repr(atoms)
+        if key in seen:
+            continue
+        seen.add(key)
+        n += 1
+        if free or any(k >= len(doms) or doms[k] is None for k in used):
+            ctx.ob("C08.accept", "path %d" % n, True, "tests a value the writer leaves free (not decided here)", site=site, trivial=True,
+                   key="C08.accept|%s" % key[:80])
+            continue
+        witness = None
+        for vals in itertools.product(*[doms[k] for k in used]):
+            env = dict(zip(used, vals))
+            ok = True
+            for a in atoms:
+                if a[0] == 'in':
+                    x, c = env[a[1]], a[2]
+                    ok = ok and ((x == c) if isinstance(c, int) else (x not in c[1]) if isinstance(c, tuple) and c[0] == 'not' else True)
+                else:
+                    x, y = [env[o[1]] if o[0] == 'r' else o[1] for o in a[1]]
+                    r = {'Lt': x < y, 'Le': x <= y, 'Eq': x == y, 'Ne': x != y}[a[0]]
+                    ok = ok and (r == a[2])
+            if ok:
+                witness = env
+                break
+        what = "; ".join("value #%d %s" % (a[1], a[2]) if a[0] == 'in' else "%s%s(%s)" % ("" if a[2] else "not ", a[0],
+                         ", ".join("#%d" % o[1] if o[0] == 'r' else str(o[1]) for o in a[1])) for a in atoms)
+        ctx.ob("C08.accept", what[:120], witness is None,
+               "no header the writer emits takes this error path" if witness is None else
+               "a header the writer emits is refused: value(s) %s written at position(s) %s (0 = file code, 2 = length in words, "
+               "3 = version, 4 = type code)" % (list(witness.values()), list(witness.keys())), site=site,
+               key="C08.accept|%s" % what[:120])
+
+
 def run(ctx):
+    header_accept_rule(ctx, ctx.facts("default"))
     _run(ctx)
     ctx.delegate("C15", ["C15.R0", "C15.R2"], "C08.routes",
                  "pairs stay aligned after random access on the shape reader: it starts with an absolute seek and rewinds", floor=2)
